@@ -189,7 +189,11 @@ def statements_for(schema, pop, rng):
 def partition(rng, stmts, nparts):
     parts = [[] for _ in range(nparts)]
     for s in stmts:
-        parts[rng.randrange(nparts)].append(s)
+        part = parts[rng.randrange(nparts)]
+        if rng.random() < 0.2:
+            # comment lines between the statements (also ones that look like statements)
+            part.append(rng.choice(('-- a comment', "-- INSERT INTO X VALUES (1, 'a');", '--', '-- CREATE TABLE Y (Id UNIQUE_ID);')))
+        part.append(s)
     return ['\n'.join(p) + '\n' for p in parts]
 
 
